@@ -138,7 +138,7 @@ pub fn run(tier: &str) -> Report {
 
     // ---------------- (b) partially constant expressions: AstVm(e) == AstVm(const_simplify(e))
     let vals = valuations();
-    let (bound, depth) = if thorough { (5, 3) } else { (3, 2) };
+    let (bound, depth) = if thorough { (5, 3) } else { (4, 2) };
     let mut bodies: Vec<String> = vec![];
     let mut seen = BTreeSet::new();
     let stats = explore_dfs(bound, if thorough { 2_000_000 } else { 150_000 }, &|ch| {
